@@ -1088,6 +1088,12 @@ func (ctx *RenderContext) evaluateExpression(node Node) (interface{}, error) {
 					return exists, nil
 				}
 
+				// ... also for typed maps with string keys (map[string]string,
+				// named map types): a key that is absent is not defined
+				if rv := reflect.ValueOf(obj); rv.Kind() == reflect.Map && rv.Type().Key().Kind() == reflect.String {
+					return rv.MapIndex(reflect.ValueOf(attrName).Convert(rv.Type().Key())).IsValid(), nil
+				}
+
 				// For other types, try to get the attribute but catch the error
 				_, err = ctx.getAttribute(obj, attrName)
 				return err == nil, nil
